@@ -21,10 +21,18 @@ ASSUMPTIONS = ["'bit-identical after the call' is an aliasing property of Python
 
 
 def intern(a):
-    u = sorted(set(a.tolist()), key=lambda v: (str(type(v)), v))
+    vals = a.tolist()
+    if len({type(v) for v in vals}) > 1:      # labels of mixed types (numbers together with text): keyed by type and value
+        u = sorted({(type(v).__name__, v) for v in vals}, key=lambda tv: (tv[0], str(tv[1])))
+        m = {tv: i for i, tv in enumerate(u)}
+        return [m[(type(v).__name__, v)] for v in vals], u
     u = list(np.unique(a))
     m = {v: i for i, v in enumerate(u)}
-    return [m[v] for v in a.tolist()], u
+    return [m[v] for v in vals], u
+
+
+def typed(seq):
+    return Counter((type(v).__name__, v) for v in seq)
 
 
 def run(ctx):
@@ -36,6 +44,8 @@ def run(ctx):
             return np.array([ctx.rng.randint(-3, 9) for _ in range(n)])
         if kind == "float":
             return np.array([ctx.rng.randint(-6, 6) / 2 for _ in range(n)])
+        if kind == "mixed":      # an object array holding numbers together with text (a label column read from a spreadsheet)
+            return np.array([ctx.rng.choice([1, 2, "ctrl", "1", 2.5, "T", -3]) for _ in range(n)], dtype=object)
         return np.array([ctx.rng.choice(["a", "b", "cc", "T", "ctl"]) for _ in range(n)], dtype=object)
 
     for _ in range(ctx.n(300, 5000)):
@@ -45,12 +55,15 @@ def run(ctx):
         n = ctx.rng.randint(1, 9)
         det = {"helper": which, "dtype": kind}
         if which == "permute":
+            if kind == "object" and ctx.rng.random() < 0.5:
+                kind = "mixed"; det["dtype"] = "object (mixed types)"
             x = arr(n, kind); snap = x.copy()
             r = guarded(utils.permute, x, g)
-            det["x"] = x.tolist()
-            ok = r[0] == "ok" and np.array_equal(x, snap) and np.shape(r[1]) == x.shape and Counter(np.array(r[1]).tolist()) == Counter(x.tolist())
+            det["x"] = [repr(v) for v in x.tolist()] if kind == "mixed" else x.tolist()
+            ok = r[0] == "ok" and np.array_equal(x, snap) and np.shape(r[1]) == x.shape and Counter(np.array(r[1]).tolist()) == Counter(x.tolist()) \
+                and (kind != "mixed" or typed(np.array(r[1], dtype=object).tolist()) == typed(x.tolist()))
             if ok:
-                codes, _ = intern(np.concatenate([x, np.array(r[1], dtype=x.dtype)]) if kind != "object" else np.array(list(x) + list(r[1]), dtype=object))
+                codes, _ = intern(np.concatenate([x, np.array(r[1], dtype=x.dtype)]) if kind not in ("object", "mixed") else np.array(list(x) + list(r[1]), dtype=object))
                 try:
                     d = Draws(g.log); cs = d.fy(n); assert d.done()
                     ops.append(f"fy|{ints(codes[:n])}|{ints(cs)}"); meta.append((det, codes[n:]))
